@@ -26,6 +26,8 @@ def ev_comprehension(eng, n, st: St):
     it = gen.iter
     mode = "plain"
     base = it
+    if isinstance(it, ast.Call) and isinstance(it.func, ast.Name) and it.func.id == "enumerate" and len(it.args) == 1:
+        mode, base = "enumerate", it.args[0]
     if isinstance(it, ast.Call) and isinstance(it.func, ast.Attribute) and it.func.attr in ("items", "keys", "values") and not it.args:
         mode, base = it.func.attr, it.func.value
     out = []
@@ -49,12 +51,14 @@ def _one(eng, n, gen, mode, src: SV, st: St):
         elem = key if mode in ("plain", "keys") else (val if mode == "values" else (key, val))
         bound = x
     elif sty.k in ("list", "tuple", "vtuple"):
-        if mode != "plain":
+        if mode not in ("plain", "enumerate"):
             raise Unsupported("dict view on list")
         j = fresh("cj", IntS)
         guard = z3.And(0 <= j, j < eng.list_len(st, src))
         sq = st.copy()
         elem = eng.list_read(sq, src, j, eng.elem_type(sty))
+        if mode == "enumerate":
+            elem = (SV(mk_int(j), T.INT), elem)
         bound = j
     else:
         raise Unsupported(f"comprehension over {src.ty}")
@@ -171,9 +175,29 @@ def _one(eng, n, gen, mode, src: SV, st: St):
         out.pc = out.pc + tuple(fs)
         return out, res
     # list comprehension
-    if gen.ifs:
-        raise Unsupported("filtered list comprehension (use a counting spec function)")
     W = sk(vv.term)
+    if gen.ifs:
+        # filtered: the result is the order-preserving subsequence of the elements that pass the filter, given by a
+        # strictly increasing index map idx: [0, n') -> source indices
+        if sty.k == "dict":
+            raise Unsupported("filtered list comprehension over a dict")
+        res = eng.new_list(out, [], T.lst(vv.ty))
+        rr = as_r(res.term)
+        arr = fresh("cl", ArrIV)
+        nlen = fresh("cn", IntS)
+        idx = z3.Function(f"cidx!{next(E._fresh)}", IntS, IntS)
+        pos = z3.Function(f"cpos!{next(E._fresh)}", IntS, IntS)
+        a, b2 = z3.Int("a!cf"), z3.Int("b!cf")
+        src_len = eng.list_len(st, src)
+        out.pc = out.pc + (
+            nlen >= 0, nlen <= src_len,
+            z3.ForAll([a], z3.Implies(z3.And(0 <= a, a < nlen), z3.And(0 <= idx(a), idx(a) < src_len, at(g, idx(a)), z3.Select(arr, a) == at(W, idx(a)), pos(idx(a)) == a))),
+            z3.ForAll([a, b2], z3.Implies(z3.And(0 <= a, a < b2, b2 < nlen), idx(a) < idx(b2))),
+            z3.ForAll([bound], z3.Implies(g, z3.And(0 <= pos(bound), pos(bound) < nlen, idx(pos(bound)) == bound))),
+        )
+        out.heap["llen"] = z3.Store(out.h("llen"), rr, nlen)
+        out.heap["lel"] = z3.Store(out.h("lel"), rr, arr)
+        return out, res
     res = eng.new_list(out, [], T.lst(vv.ty))
     rr = as_r(res.term)
     arr = fresh("cl", ArrIV)
